@@ -271,7 +271,14 @@ def r7(ctx):
     c01.r2(ctx, P, "C03.R7")
 
 
-RULES = [r1, r2, r2b, r3, r4, r5, r6, r7, r8]
+def r9(ctx):
+    """a request with an in-range seek gets the same (verifiable) proof whatever happens to be in
+    memory: the seek functions answer only when no read instruction is pending (C14.R7)"""
+    from . import c14
+    c14.pending_first(ctx, P, "C03.R9")
+
+
+RULES = [r1, r2, r2b, r3, r4, r5, r6, r7, r8, r9]
 EXPLANATION = ("C03 (honest proofs accepted, replicas converge): acceptance and convergence depend on flat-tree arithmetic that no structural rule captures; decided narrowly: create_proof reads the value for "
                "the proof's own block index, returns Ok(None) without building a proof when that block is not held, and passes request and proof parts through unchanged (R1); byte_offset_in_changeset sums "
                "root lengths over the same root list in which it searched the position, and its panic-capable constructs are discharged (R2); sibling agreement: upgrade_proof / additional_upgrade_proof share branch conditions and flat-tree navigation except for the sub-proof inclusion, and verify_tree's two climbing loops are the same walk (R3); writer (block_and_seek_proof, seek_proof) and reader (verify_tree) climb sibling-then-parent once per level, the reader shifting iter.sibling() and recomputing at iter.parent() (R4); writer and reader connect an upgrade to the existing tree from the same place — the writer from the requester's last leaf (from - 2), the reader from the last root of the changeset (R5); an accepted proof is logged before it is committed in memory and flushed after the commit, so that it survives replica reopen (R6, the ordering clauses of C02.R2), and every logged entry — also one with tree nodes but no upgrade, as a block fetched at the current length produces — is re-applied on open (R7, the replay clauses of C01.R2); where an upgrade proof embeds the block / seek sub-proof, block_and_seek_proof is called with root = the iterator position tested to contain its seek_root (R8).")
